@@ -250,3 +250,124 @@ def oracle(seed, tier):
     res.samples.append({'cap': histories[-1][0], 'history': [list(o) for o in histories[-1][1]]})
     res.samples.append({'cap': histories[0][0], 'history': [list(o) for o in histories[0][1]]})
     return res
+
+
+# ---------------------------------------------------------------------------
+# blocking acquirers under the deterministic scheduler (trace validation against the
+# blocking model `bstep`, and the direct no-lost-wake-up oracle)
+
+def blocking_run(seed, cap, plans, mode):
+    """plans: per thread a list of tags; the thread does, for each tag: tok = acquire(tag)
+    (blocking), yield, release(tag, tok).  Returns (events sorted by stamp, failure, sched)."""
+    from sched import Scheduler
+    from shim import Installed
+    sch = Scheduler(seed=seed, mode=mode, max_steps=20000)
+    events = []
+
+    with Installed(sch, modules=['utils']):
+        from s3transfer.utils import SlidingWindowSemaphore
+        sem = SlidingWindowSemaphore(cap)
+        inner = sem._condition
+        stamps = {}
+
+        class CondProxy:
+            def acquire(self, *a, **k):
+                r = inner.acquire(*a, **k)
+                stamps.setdefault(sch.me().name, []).append(('lock', sch.tick()))
+                return r
+
+            def release(self):
+                inner.release()
+
+            def wait(self, timeout=None):
+                inner.wait(timeout)
+                stamps.setdefault(sch.me().name, []).append(('wake', sch.tick()))
+
+            def notify(self, n=1):
+                inner.notify(n)
+
+            def notify_all(self):
+                inner.notify_all()
+        sem._condition = CondProxy()
+
+        def worker(i, tags):
+            def run():
+                me = sch.me().name
+                for tag in tags:
+                    n0 = len(stamps.get(me, []))
+                    tok = sem.acquire('t%d' % tag, blocking=True)
+                    evs = stamps[me][n0:]
+                    for j, (kind, st) in enumerate(evs):
+                        out = 'token %d' % tok if j == len(evs) - 1 else 'would-block'
+                        lab = 'bsema acq %d %d' % (i, tag) if kind == 'lock' else 'bsema wake %d %d' % (i, tag)
+                        events.append((st, lab, out))
+                    sch.point('hold')
+                    n0 = len(stamps.get(me, []))
+                    sem.release('t%d' % tag, tok)
+                    st = stamps[me][n0][1]
+                    events.append((st, 'bsema rel %d %d' % (tag, tok), 'ok'))
+            return run
+
+        def main():
+            ts = [sch.spawn(worker(i, p), 'u%d' % i) for i, p in enumerate(plans)]
+            sch.block_until(lambda: all(t.finished for t in ts), 'join')
+        fail = sch.run(main, timeout=30)
+        # events of calls that never returned (blocked for ever) are in `stamps` only
+        return sorted(events), fail, sch, sem
+
+
+def _blocking_plans(rng):
+    cap = rng.randrange(1, 4)
+    nthreads = rng.randrange(2, 5)
+    ntags = rng.randrange(1, 4)
+    plans = [[rng.randrange(ntags) for _ in range(rng.randrange(1, 4))] for _ in range(nthreads)]
+    return cap, plans
+
+
+def blocking_corr(seed, tier):
+    res = CorrResult('sema-blocking')
+    rng = rng_for(seed, 'sema-blocking')
+    cases = []
+    for i in range(120 if tier == 'quick' else 2500):
+        cap, plans = _blocking_plans(rng)
+        mode = ['uniform', 'sticky', 'pct'][i % 3]
+        events, fail, sch, sem = blocking_run(rng.randrange(1 << 30), cap, plans, mode)
+        ops = [('bsema new %d' % cap, 'ok')]
+        for st, lab, out in events:
+            ops.append((lab, out))
+        if fail is None:
+            ops.append(('bsema state', 'count=%d waiting= notified=' % cap))
+        blocked = any(o == 'would-block' for _, _, o in events)
+        res.note_case(('b', i), blocked, {'cap': cap, 'threads': plans, 'trace': [l for _, l, _ in events[:12]]} if blocked else None)
+        res.hit('blocked' if blocked else 'no-wait')
+        case = {'cap': cap, 'plans': plans, 'mode': mode, 'schedule': sch.choices[:300]}
+        if fail is not None:
+            res.mismatches.append({'component': 'sema-blocking', 'case': case, 'ops': [l for l, _ in ops],
+                                   'first_diverging_op': 'quiescence', 'impl': repr(fail),
+                                   'model': 'no thread blocked once every token is released'})
+        else:
+            cases.append((case, ops))
+    compare_with_model(res, cases)
+    return res
+
+
+def blocking_oracle(seed, tier):
+    """No acquirer stays blocked for ever when every issued token is eventually released."""
+    res = OracleResult('C12')
+    rng = rng_for(seed, 'sema-blocking-oracle')
+    for i in range(150 if tier == 'quick' else 3000):
+        cap, plans = _blocking_plans(rng)
+        mode = ['uniform', 'sticky', 'pct'][i % 3]
+        events, fail, sch, sem = blocking_run(rng.randrange(1 << 30), cap, plans, mode)
+        res.evaluations += 1
+        if fail is not None:
+            res.violation('acquirer-blocked-for-ever',
+                          {'cap': cap, 'threads_tags': plans, 'mode': mode, 'schedule': sch.choices[:300],
+                           'trace': [(l, o) for _, l, o in events[-12:]], 'blocked': sch.blocked_summary()},
+                          'SlidingWindowSemaphore(%d): %r although every acquired token was released' % (cap, fail))
+        elif sem.current_count.__self__._count != cap:
+            res.violation('not-restored', {'cap': cap, 'threads_tags': plans}, 'count %d after all released' % sem._count)
+        if any(o == 'would-block' for _, _, o in events):
+            res.nontrivial.add(('b', i))
+    res.samples.append({'cap': cap, 'threads_tags': plans})
+    return res
